@@ -370,6 +370,9 @@ Definition up_step (md5 : list N -> list N) (c : config) (hs : hstate) (o : hop)
           | inr r => (mk s1 u ut, exp_ok ob ++
                         expect (uploads_eqb ut (ur_uploads r) (ob_contents ob)) "S:uploads" ++
                         expect (same_set (ur_prefixes r) (ob_names ob)) "S:upload-common-prefixes" ++
+                        expect (negb (ob_truncated ob) || (limit =? 0) ||
+                                match ob_contents ob, ob_names ob with [], [] => false | _, _ => true end)
+                               "S:truncated-page-with-nothing-on-it" ++
                         expect (Bool.eqb (ur_truncated r) (ob_truncated ob)) "M:is-truncated" ++
                         (if ur_truncated r then
                            expect (beq (ob_next ob) (ur_next_key r)) "M:next-key-marker" ++
